@@ -26,10 +26,33 @@ fn transcript(id: u8) -> Option<Strobe> {
     }
 }
 
+thread_local! {
+    /// when set, every dealer node runs on its own OS thread (released for one call at a time)
+    static DEALER_THREADS: std::cell::RefCell<Option<crate::kernel::NodeThreads>> = std::cell::RefCell::new(None);
+}
+
 fn deal(ctx: &mut Ctx, stream: u64, t: u32, m: &[u8], r: &[u8], tid: u8) -> Result<Share, Violation> {
-    ctx.os
-        .with_stream(stream, || Commune::new(t, m.to_vec(), r.to_vec(), transcript(tid)).share())
-        .map_err(|e| Violation::new("c16.share_failed", "share", format!("share() failed for t={} |M|={} |R|={}: {}", t, m.len(), r.len(), e)))
+    let threaded = DEALER_THREADS.with(|d| d.borrow().is_some());
+    let res = if threaded {
+        let mut entropy = vec![0u8; 256];
+        ctx.os.with_stream(stream, || {
+            let _ = getrandom::getrandom(&mut entropy);
+        });
+        let (mm, rr) = (m.to_vec(), r.to_vec());
+        DEALER_THREADS.with(|d| {
+            d.borrow_mut().as_mut().unwrap().run(stream as u32, entropy, move || Commune::new(t, mm, rr, transcript(tid)).share().map_err(|e| e.to_string()))
+        })
+    } else {
+        ctx.os.with_stream(stream, || Commune::new(t, m.to_vec(), r.to_vec(), transcript(tid)).share().map_err(|e| e.to_string()))
+    };
+    res.map_err(|e| Violation::new("c16.share_failed", "share", format!("share() failed for t={} |M|={} |R|={}: {}", t, m.len(), r.len(), e)))
+}
+
+struct ThreadsGuard;
+impl Drop for ThreadsGuard {
+    fn drop(&mut self) {
+        DEALER_THREADS.with(|d| *d.borrow_mut() = None);
+    }
 }
 
 impl Property for C16 {
@@ -46,6 +69,11 @@ impl Property for C16 {
         if thorough { 300_000 } else { 10_000 }
     }
     fn run(&self, ctx: &mut Ctx) -> Result<(), Violation> {
+        let _guard = ThreadsGuard;
+        if ctx.ch.chance(1, 3) {
+            DEALER_THREADS.with(|d| *d.borrow_mut() = Some(crate::kernel::NodeThreads::default()));
+            ctx.stats.probe("runs_with_one_os_thread_per_dealer");
+        }
         let ts: Vec<u32> = if ctx.thorough { vec![0, 1, 1, 2, 2, 3, 3, 4, 5, 8, 17, 40, 128] } else { vec![0, 1, 1, 2, 2, 3, 3, 4, 5, 8, 17, 40] };
         let t = *ctx.ch.pick(&ts);
         let mut lens = vec![0usize, 0, 1, 4, 15, 16, 17, 32, 32, 165, 166, 167, 332, 1000];
